@@ -511,6 +511,12 @@ func replay(p *Prop, r *ev.Run, path string) {
 		ev.HarnessError("bad replay file: %v", err)
 	}
 	c := f.Case
+	if len(c.Lattice) == 0 || p.Judge == nil {
+		// cases of the non-lattice enumerations (API segments, border offsets, real-grid sweep) carry their
+		// full input in the file; they are re-judged by re-running the (seconds long) enumeration they belong to
+		fmt.Printf("replay of %s: this case belongs to a non-lattice enumeration of %s; its input is in the file, re-run `bin/check %s quick` to re-judge it\n", path, p.ID, p.ID)
+		r.Exit()
+	}
 	g := c.Grid.Build()
 	sc := &Scope{Name: "replay:" + c.Scope, GS: c.Grid, G: g, IDSets: [][]int{c.IDs}, Cfgs: []snap.Config{c.Cfg}}
 	var sigs [2][]string
